@@ -93,6 +93,153 @@ pub fn check_line_variant(fl: &mut Flounder, white_to_move: bool, line: &str, ow
     }
 }
 
+/// Middlegames in which deeper iterations change their mind (hanging pieces, mating attacks):
+/// that is where a search is tempted to take more time than it was given.
+pub const SPEND_POSITIONS: &[&str] = &[
+    "r3k2r/p1ppqpb1/bn2pnp1/3PN3/1p2P3/2N2Q1p/PPPBBPPP/R3K2R w KQkq - 0 1",
+    "r1bq1rk1/ppp2ppp/2np1n2/2b1p3/2B1P3/2PP1N2/PP3PPP/RNBQ1RK1 w - - 0 7",
+    "2r1nrk1/p4p1p/1p2p1pQ/nPqbRN2/8/P2B4/1BP2PPP/3R2K1 w - - 0 1",
+    "r1b1q1r1/ppp3kp/1bnp4/4p1B1/3PP3/2P2Q2/PP3PPP/RN3RK1 w - - 0 1",
+    "rn1r2k1/ppp2ppp/3q1n2/4b1B1/4P1b1/1BP1Q3/PP3PPP/RN2K1NR b KQ - 0 1",
+    "r4rk1/1pp1qppp/p1np1n2/2b1p1B1/2B1P1b1/P1NP1N2/1PP1QPPP/R4RK1 w - - 0 10",
+    "5r2/pp3k2/5r2/q1p2Q2/3P4/6R1/PPP2PP1/1K6 w - - 0 1",
+    "6k1/1p1b3p/2pp2p1/p7/2Pb2Pq/1P1PpK2/P1N3RP/1RQ5 b - - 0 1",
+    "r2q1rk1/pP1p2pp/Q4n2/bbp1p3/Np6/1B3NBn/pPPP1PPP/R3K2R b KQ - 0 1",
+    "rnbq1k1r/pp1Pbppp/2p5/8/2B5/8/PPP1NnPP/RNBQK2R w KQ - 1 8",
+    "r3r1k1/pp3pbp/1qp3p1/2B5/2BP2b1/Q1n2N2/P4PPP/3R1K1R w - - 0 1",
+    "r1bqk2r/pppp1ppp/2n2n2/2b1p3/2B1P3/3P1N2/PPP2PPP/RNBQK2R w KQkq - 0 5",
+    "r2q1rk1/ppp2ppp/2n1bn2/2bpp3/4P3/2PP1NP1/PP1N1PBP/R1BQ1RK1 w - - 0 9",
+    "2kr3r/ppp2ppp/2n1b3/2b1P3/5Bn1/2N2N2/PPP1B1PP/R4RK1 w - - 0 12",
+    "r4k2/pb2bp1r/1p1qp2p/3pNp2/3P1P2/2N3P1/PPP1Q2P/2KRR3 w - - 0 1",
+    "8/5pk1/6p1/R7/5P2/6P1/r4K2/8 w - - 0 40",
+];
+
+/// Second budget of a pair of go commands on a fresh engine (dry run); None after a violation.
+fn pair_budget(rep: &Report, stm: bool, setup: &str, first: &str, second: &str, own_time: u64, own_inc: u64) -> Option<u128> {
+    let args = vec!["c12-pair".to_string(), "--stm".into(), if stm { "w".into() } else { "b".into() }, "--first".into(), first.to_string(), "--second".into(), second.to_string(), "--own-time".into(), own_time.to_string(), "--own-inc".into(), own_inc.to_string()];
+    crate::crumb::set_owned(&args);
+    let r = guard(|| {
+        let mut fl = Flounder::new();
+        crate::search::verif::set_dry_run(true);
+        fl.verif_handle_command(setup);
+        fl.verif_handle_command(first);
+        fl.verif_handle_command(second);
+        crate::search::verif::last_go().map(|(_, t)| t.map(|d| d.as_millis()))
+    });
+    let sig = format!("C12 pair stm={} second={:?} after {:?}", if stm { "w" } else { "b" }, second, first);
+    match r {
+        Err(e) => {
+            rep.violation(format!("{} panic", sig), format!("{:?} then {:?}: {}", first, second, e), args, J::Null);
+            None
+        }
+        Ok(None) | Ok(Some(None)) => {
+            rep.violation(format!("{} nolimit", sig), format!("{:?} then {:?}: the second go set no time limit although the mover's clock was given", first, second), args, J::Null);
+            None
+        }
+        Ok(Some(Some(b))) => {
+            if b > own_time as u128 || (own_time > 0 && b >= own_time as u128) {
+                rep.violation(
+                    format!("{} exceeds", sig),
+                    format!("{:?} then {:?} ({} to move): the second budget {} ms does not fit in the mover's remaining {} ms", first, second, if stm { "white" } else { "black" }, b, own_time),
+                    args,
+                    J::Null,
+                );
+                return None;
+            }
+            Some(b)
+        }
+    }
+}
+
+/// One real go under the node clock; returns the share of the clock spent (per mille).
+fn spend_case(rep: &Report, fen: &str, t: u64, inc: u64) -> u64 {
+    let white = fen.split_whitespace().nth(1) == Some("w");
+    let go = format!("go wtime {t} btime {t} winc {i} binc {i}", t = t, i = inc);
+    let args = vec!["c12-spend".to_string(), "--fen".into(), fen.to_string(), "--time".into(), t.to_string(), "--inc".into(), inc.to_string()];
+    crate::crumb::set_owned(&args);
+    let r = guard(|| {
+        crate::timer::verif::set_node_clock(Some(1));
+        crate::search::verif::set_dry_run(false);
+        let mut fl = Flounder::new();
+        fl.verif_handle_command(&format!("position fen {}", fen));
+        fl.verif_handle_command(&go);
+        fl.verif_searcher().verif_nodes()
+    });
+    let sig = format!("C12 spend fen={} time={} inc={}", fen, t, inc);
+    match r {
+        Err(e) => {
+            rep.violation(format!("{} panic", sig), format!("{:?} then {:?}: {}", fen, go, e), args, J::Null);
+            0
+        }
+        Ok(nodes) => {
+            if nodes > t + crate_overrun() {
+                rep.violation(
+                    sig,
+                    format!(
+                        "{:?}, {:?} ({} to move) under the node clock (1 node = 1 ms): the engine answered after {} ms of its clock, but the mover had only {} ms left: it loses on time by its own allocation",
+                        fen, go, if white { "white" } else { "black" }, nodes, t
+                    ),
+                    args,
+                    J::obj().set("virtual_ms_spent", nodes).set("own_clock_ms", t),
+                );
+            }
+            nodes * 1000 / t.max(1)
+        }
+    }
+}
+
+/// the same allowance C07 gives a search to notice its deadline
+fn crate_overrun() -> u64 {
+    2048
+}
+
+pub fn replay_pair(stm: &str, first: &str, second: &str, own_time: u64, own_inc: u64) -> i32 {
+    let rep = Report::new("C12", "quick", 0);
+    let white = stm == "w";
+    let setup = if white { "position startpos" } else { "position startpos moves e2e4" };
+    let b = pair_budget(&rep, white, setup, first, second, own_time, own_inc);
+    // the opponent-dependence form: the same pair with the canonical opponent clocks
+    if let Some(b) = b {
+        let strip = |l: &str| -> String {
+            let toks: Vec<&str> = l.split_whitespace().collect();
+            let get = |k: &str| toks.iter().position(|t| *t == k).and_then(|i| toks.get(i + 1)).map(|x| x.to_string()).unwrap_or("0".into());
+            let (ot, oi) = if white { (get("wtime"), get("winc")) } else { (get("btime"), get("binc")) };
+            if white { format!("go wtime {} btime 1000 winc {} binc 0", ot, oi) } else { format!("go wtime 1000 btime {} winc 0 binc {}", ot, oi) }
+        };
+        if let Some(c) = pair_budget(&rep, white, setup, &strip(first), &strip(second), own_time, own_inc) {
+            if c != b {
+                println!("REPLAY-VIOLATION C12 pair: second budget {} ms, with other opponent clocks {} ms", b, c);
+                return 1;
+            }
+        }
+    }
+    let v = rep.violations.lock().unwrap();
+    for x in v.iter() {
+        println!("REPLAY-VIOLATION {} :: {}", x.sig, x.text);
+    }
+    if v.is_empty() {
+        println!("REPLAY-OK C12 pair {:?} then {:?}", first, second);
+        0
+    } else {
+        1
+    }
+}
+
+pub fn replay_spend(fen: &str, t: u64, inc: u64) -> i32 {
+    let rep = Report::new("C12", "quick", 0);
+    spend_case(&rep, fen, t, inc);
+    let v = rep.violations.lock().unwrap();
+    for x in v.iter() {
+        println!("REPLAY-VIOLATION {} :: {}", x.sig, x.text);
+    }
+    if v.is_empty() {
+        println!("REPLAY-OK C12 spend {} {} {}", fen, t, inc);
+        0
+    } else {
+        1
+    }
+}
+
 fn make_engine(white_to_move: bool) -> Flounder {
     let mut fl = Flounder::new();
     crate::search::verif::set_dry_run(true);
@@ -327,6 +474,98 @@ pub fn run(tier: &str, seed: u64, out: &str) {
     );
     let sn: u64 = sres.iter().sum();
 
+    // ---- two clock-based go commands in one game: the clock of the second may be lower, equal or
+    // much higher than at the first (next stage of a time control, time added by an arbiter, a
+    // GUI that sends no ucinewgame between games). Whatever the engine remembers from the first,
+    // the second budget must fit its clock and must not move with the opponent's clock.
+    const PAIR_TIMES: [u64; 7] = [0, 1, 100, 3000, 60_000, 303_000, 3_600_000];
+    const PAIR_INCS: [u64; 3] = [0, 1000, 60_000];
+    let mut punits: Vec<(bool, u64, u64)> = Vec::new();
+    for stm in [true, false] {
+        for &t1 in &PAIR_TIMES {
+            for &i1 in &PAIR_INCS {
+                punits.push((stm, t1, i1));
+            }
+        }
+    }
+    let pres: Vec<u64> = par_map_init(
+        &punits,
+        || (),
+        |_, &(stm, t1, i1)| {
+            let mut n = 0u64;
+            let setup = if stm { "position startpos" } else { "position startpos moves e2e4" };
+            let line = |own_t: u64, own_i: u64, opp_t: u64, opp_i: u64| {
+                let v = if stm { [own_t, opp_t, own_i, opp_i] } else { [opp_t, own_t, opp_i, own_i] };
+                format!("go wtime {} btime {} winc {} binc {}", v[0], v[1], v[2], v[3])
+            };
+            for &t2 in &PAIR_TIMES {
+                for &i2 in &PAIR_INCS {
+                    let mut seen: Option<u128> = None;
+                    for (o1, o2) in [((1000u64, 0u64), (1000u64, 0u64)), ((3_600_000, 7), (5, 60_000)), ((0, 0), (3_600_000, 7))] {
+                        if rep.saturated() {
+                            return n;
+                        }
+                        let first = line(t1, i1, o1.0, o1.1);
+                        let second = line(t2, i2, o2.0, o2.1);
+                        n += 1;
+                        if let Some(b) = pair_budget(&rep, stm, setup, &first, &second, t2, i2) {
+                            match seen {
+                                None => seen = Some(b),
+                                Some(prev) if prev != b => {
+                                    rep.violation(
+                                        format!("C12 pair stm={} first-own={}+{} second-own={}+{} depends-on-opponent", if stm { "w" } else { "b" }, t1, i1, t2, i2),
+                                        format!("{:?} then {:?} ({} to move): the second budget is {} ms, but with other opponent clocks in the two commands (same own clocks) it is {} ms", first, second, if stm { "white" } else { "black" }, b, prev),
+                                        vec!["c12-pair".to_string(), "--stm".into(), if stm { "w".into() } else { "b".into() }, "--first".into(), first.clone(), "--second".into(), second.clone(), "--own-time".into(), t2.to_string(), "--own-inc".into(), i2.to_string(), "--t1".into(), t1.to_string(), "--i1".into(), i1.to_string()],
+                                        J::Null,
+                                    );
+                                }
+                                _ => {}
+                            }
+                        }
+                    }
+                }
+            }
+            n
+        },
+    );
+    let pn: u64 = pres.iter().sum();
+
+    // ---- the budget as the search really spends it: real go commands under the node clock
+    // (1 node = 1 ms of the engine's clock) on middlegame positions, with clocks on which the
+    // half-the-clock cap binds. Whatever the search does with its budget on the way (extensions,
+    // allowances), the answer must come before the mover's clock has run out.
+    for f in SPEND_POSITIONS {
+        match crate::refchess::Pos::from_fen(f) {
+            Ok(p) if p.validity().is_ok() => {}
+            _ => {
+                eprintln!("MACHINERY ERROR: C12 position {:?} is not a valid position", f);
+                std::process::exit(2);
+            }
+        }
+    }
+    let mut sunits: Vec<(usize, u64, u64)> = Vec::new();
+    for pi in 0..SPEND_POSITIONS.len() {
+        for t in [600u64, 2500, 8000, 20_000] {
+            for inc in [0, t / 2, t, 3 * t] {
+                sunits.push((pi, t, inc));
+            }
+        }
+    }
+    let spent: Vec<(u64, u64)> = par_map_init(
+        &sunits,
+        || (),
+        |_, &(pi, t, inc)| {
+            if rep.saturated() {
+                return (0, 0);
+            }
+            let r = spend_case(&rep, SPEND_POSITIONS[pi], t, inc);
+            (1, r)
+        },
+    );
+    let spn: u64 = spent.iter().map(|x| x.0).sum();
+    let sp_max: u64 = spent.iter().map(|x| x.1).max().unwrap_or(0);
+    crate::timer::verif::set_node_clock(None);
+
     // ---- extreme values: every combination of the four clock fields over the edges of the u64
     // range (anything `parse::<u64>()` accepts is a clock value the command can carry); arithmetic
     // on them must neither panic (the harness is built with overflow checks, like `cargo run`)
@@ -374,7 +613,7 @@ pub fn run(tier: &str, seed: u64, out: &str) {
 
     let dn: u64 = dres.iter().map(|r| r.0).sum();
     let ddistinct: u64 = dres.iter().map(|r| r.1).sum();
-    let n: u64 = results.iter().map(|r| r.0).sum::<u64>() + dn + en + mn + sn;
+    let n: u64 = results.iter().map(|r| r.0).sum::<u64>() + dn + en + mn + sn + pn + spn;
     let distinct: u64 = results.iter().map(|r| r.1).sum::<u64>() + ddistinct + edistinct;
     let samples: Vec<String> = results.iter().flat_map(|r| r.2.iter().cloned()).take(8).collect();
     let cov = J::obj()
@@ -385,6 +624,8 @@ pub fn run(tier: &str, seed: u64, out: &str) {
         .set("extreme_values", J::obj().set("values_per_field", "0, 1, 5000, 2^32-1, 2^32, 2^63-1, 2^63, 2^64-2, 2^64-1").set("go_lines", en).set("own_clock_points", edistinct).set("rule", "all 9^4 combinations of the four fields x 4 token orders x both sides to move"))
         .set("movestogo", J::obj().set("go_lines", mn).set("rule", "movestogo N (N in 0,1,2,10,40) in each of the five slots around the four clock pairs, three pair orders, own time over the 19 grid values, own increment over the 6 grid values + time/2, time, 3*time, three opponent clocks; the budget must fit and must not change with the opponent's clock (lines with a different layout or N are not compared)"))
         .set("session_stages", J::obj().set("go_lines", sn).set("rule", "the same go line as the very first go of a fresh engine, repeated, as the first go after ucinewgame, and after a real depth-1 search; fit and independence from the opponent's clock per stage"))
+        .set("pairs_of_go_commands", J::obj().set("pairs", pn).set("rule", "two clock-based go commands in one game (no ucinewgame between): own clock of each over 0, 1, 100, 3000, 60000, 303000, 3600000 ms x increment 0, 1000, 60000, both sides to move, three opponent-clock variants; the second budget must fit its clock and be the same for all opponent variants"))
+        .set("budget_as_spent", J::obj().set("real_go_commands", spn).set("positions", SPEND_POSITIONS.len()).set("largest_share_of_the_clock_spent_permille", sp_max).set("rule", "real go (not dry run) under the node clock on middlegame positions, own clock 600 / 2500 / 8000 / 20000 ms x increment 0, time/2, time, 3*time: virtual time elapsed when the answer comes (nodes visited) must be below the mover's clock (+ the C07 allowance of 2048 nodes)"))
         .set("exhaustive", true)
         .set("samples", samples);
     rep.finish(
